@@ -131,8 +131,11 @@ Definition chk (c : pcase) : nat :=
       if negb (oz_eqb back (Some n) && oz_eqb bl (Some n)) then 1
       else if ostr_eqb alpha (digit_to_alpha n) then 0 else 2
   | PAlpha s d back =>
-      if negb (ostr_eqb back (Some (map upper s))) then 1
-      else if oz_eqb d (alpha_to_digit s) then 0 else 2
+      match alpha_to_digit s with
+      | None => if oz_eqb d None then 0 else 1          (* a string that is not a column name is accepted: the bijection breaks *)
+      | Some _ => if negb (ostr_eqb back (Some (map upper s))) then 1
+                  else if oz_eqb d (alpha_to_digit s) then 0 else 2
+      end
   | PConv s valid r => if oozl_eqb r (convert_coordinates s) then 0 else if valid then 2 else 9
   | PPrint kind x y z t s r =>
       let want := if kind =? 0 then [Some x; Some y] else if kind =? 1 then [Some x; Some y; Some z; Some t]
@@ -163,6 +166,9 @@ def gen_pure(tier, rng):
         specs.append(dict(k="col", n=rng.randrange(20001, 10 ** rng.randint(5, 12))))
     for _ in range(600 if tier == "quick" else 20000):
         specs.append(dict(k="alpha", s="".join(rng.choice("abcxyzABCXYZmnMN") for _ in range(rng.randint(1, 9)))))
+    # strings that are not column names must not be accepted as one (letters of other scripts, digits, empty)
+    for a in ["é", "Ω", "ß", "中", "aé", "éB", "Ａ", "A1", "", " A", "A B", "ÀB"]:
+        specs.append(dict(k="alpha", s=a))
     # written forms
     def rx(): return rng.choice([0, 1, 25, 26, 27, 701, 702, 703, 16383, 16384]) if rng.random() < .3 else rng.randrange(0, rng.choice([30, 800, 20000, 10 ** 9]))
     def ry(): return rng.choice([0, 1, 8, 9, 10, 98, 99, 100, 1048575, 1048576]) if rng.random() < .3 else rng.randrange(0, rng.choice([30, 2000, 10 ** 7, 10 ** 15]))
@@ -245,6 +251,8 @@ def run_pure(spec, U):
 
 
 def key_pure(spec, code):
+    if spec["k"] == "alpha" and code == 1 and not spec["s"].isascii():
+        return "coordinates.py/alpha_to_digit/non-ascii-letter-accepted"
     return "coordinates.py/%s/code%d" % (spec["k"], code)
 
 
@@ -383,7 +391,8 @@ Definition in_bounds (b : quad) (r : res) : bool :=
   end.
 (* 1: two forms of the same address return different cells   4: a range does not bound the result
    2: the result is not the model's slice of the grid   9: same, outside the property's domain (fidelity note) *)
-Definition chk (c : list Z * grid * quad * bool * list (tcall * res)) : nat :=
+Definition case_t := (list Z * grid * quad * bool * list (tcall * res))%type.
+Definition chk (c : case_t) : nat :=
   let '(cols, g, b, valid, forms) := c in
   match forms with
   | [] => 0
@@ -611,7 +620,7 @@ def run_read(spec, odfdo):
         pairs.append(do_read(t, spec["m"], j, f))
     cols2, grid2 = abstract_table(t.serialize())
     same = (cols2, grid2) == (cols, grid)
-    term = "(%s, %s, (%s, %s, %s, %s), %s, [%s])" % (cols_term(cols), grid_term(grid), *[oz(b) for b in spec["bounds"]],
+    term = "((%s, %s, (%s, %s, %s, %s), %s, [%s]) : case_t)" % (cols_term(cols), grid_term(grid), *[oz(b) for b in spec["bounds"]],
                                                      "true" if spec["valid"] else "false", ";".join("(%s, %s)" % p for p in pairs))
     return term, same
 
@@ -684,7 +693,8 @@ Definition after (w : Z) (g : grid) (c : wcall) : option grid :=
   end.
 (* 1: two forms of the same address leave different tables   2: the table after is not the model's
    9: same, outside the property's domain (fidelity note) *)
-Definition chk (c : Z * grid * bool * list (wcall * option grid)) : nat :=
+Definition case_t := (Z * grid * bool * list (wcall * option grid))%type.
+Definition chk (c : case_t) : nat :=
   let '(w, g, valid, forms) := c in
   match forms with
   | [] => 0
@@ -811,7 +821,7 @@ def run_write(spec, odfdo):
     xml = table_xml(spec["table"])
     cols, grid = abstract_table(xml)
     pairs = [do_write(odfdo, xml, spec["m"], spec["j"], f, spec["arg"]) for f in spec["forms"]]
-    return "(%d, %s, %s, [%s])" % (len(cols), grid_term(grid), "true" if spec["valid"] else "false", ";".join("(%s, %s)" % p for p in pairs))
+    return "((%d, %s, %s, [%s]) : case_t)" % (len(cols), grid_term(grid), "true" if spec["valid"] else "false", ";".join("(%s, %s)" % p for p in pairs))
 
 
 def key_write(spec, code):
